@@ -46,6 +46,9 @@ EXPLANATION = (
     ' builder (the ValueError of a later malformed group would then be raised before the segments of the valid'
     " groups exist). R09.8 also requires every `self.<f> *= other` in a segment's __imul__ whose field the"
     ' constructors can leave None to be dominated by `self.<f> is not None`.'
+    ' Reader contract (R09.1): inside the loops of _number and _flag, `return None` occurs only before the'
+    " cursor is advanced past the token - the command branches rely on 'None means nothing was read' for the"
+    ' operands they do not re-check.'
 )
 TECHNIQUE = (
     "static analysis (no execution): nullness of lexer operands at builder calls (value tracking + token-language implications decided on regex automata); tokenizer loop summaries per token alternative (progress); ValueError-only raise lint; callee nullness summaries"
